@@ -12,7 +12,7 @@ VALS = SCALARS + PODS
 # element types for slices (Unit0 = zero-sized)
 ELEMS = ["u8", "u16", "u32", "u64", "i64", "Pod1", "Pod2", "Unit0", "f64"]
 # T for Option<T> that cannot use the null-pointer optimisation
-OPT_INNER = ["u8", "u32", "u64", "usize", "i16", "bool", "f64", "Pod1", "char"]
+OPT_INNER = ["u8", "u32", "u64", "usize", "i16", "bool", "f64", "Pod1", "char", "*const u8", "*mut u32"]
 # When set, only leaf types that rustc's improper_ctypes lint accepts are generated (`char` is
 # not C-representable by the compiler's own rules), as C03's precondition demands.
 FFI_STRICT = False
